@@ -34,6 +34,7 @@ def handle : List String → Option String
   | ["quote", s] => some (hexStr (quote (unhexStr s)))
   | ["quoteplus", s] => some (hexStr (quotePlus (unhexStr s)))
   | ["urlencode", ps] => (readPairs ps).map fun l => hexStr (urlencode l)
+  | ["urlencodeq", ps] => (readPairs ps).map fun l => hexStr (urlencodeWith false l)
   | _ => none
 
 end Drv.Qs
